@@ -396,14 +396,14 @@ const preludeText = `
   ((NodeBottom) (mkNode (ntype Int) (nval Val) (kids (Array Int Node)) (nkids Int)))
 ))
 (declare-datatypes ((Err 0)) (((ErrNil) (ErrSyntax (emsg Str) (eexpr Str) (eoff Int)) (ErrOther (eid Int)))))
-(declare-fun str.len (Str) Int)
-(declare-fun str.at (Str Int) (_ BitVec 8))
-(declare-fun str.sub (Str Int Int) Str)
-(declare-fun str.cat (Str Str) Str)
-(declare-fun str.lt (Str Str) Bool)
-(declare-fun str.fromRune ((_ BitVec 32)) Str)
-(declare-const str.empty Str)
-(assert (= (str.len str.empty) 0))
+(declare-fun gs.len (Str) Int)
+(declare-fun gs.at (Str Int) (_ BitVec 8))
+(declare-fun gs.sub (Str Int Int) Str)
+(declare-fun gs.cat (Str Str) Str)
+(declare-fun gs.lt (Str Str) Bool)
+(declare-fun gs.fromRune ((_ BitVec 32)) Str)
+(declare-const gs.empty Str)
+(assert (= (gs.len gs.empty) 0))
 `
 
 // Prelude emits the fixed prelude plus discovered datatypes.
@@ -419,14 +419,14 @@ func (w *World) Prelude() string {
 		for _, s := range w.strOrder {
 			t := w.strLits[s]
 			fmt.Fprintf(&sb, "(declare-const %s Str) ; %q\n", t.Head, s)
-			fmt.Fprintf(&sb, "(assert (= (str.len %s) %d))\n", t.Head, len(s))
+			fmt.Fprintf(&sb, "(assert (= (gs.len %s) %d))\n", t.Head, len(s))
 			if len(s) <= 4 {
 				for i := 0; i < len(s); i++ {
-					fmt.Fprintf(&sb, "(assert (= (str.at %s %d) (_ bv%d 8)))\n", t.Head, i, s[i])
+					fmt.Fprintf(&sb, "(assert (= (gs.at %s %d) (_ bv%d 8)))\n", t.Head, i, s[i])
 				}
 			}
 			if s == "" {
-				fmt.Fprintf(&sb, "(assert (= %s str.empty))\n", t.Head)
+				fmt.Fprintf(&sb, "(assert (= %s gs.empty))\n", t.Head)
 			}
 		}
 		if len(w.strOrder) > 1 {
